@@ -68,10 +68,10 @@ template<class T> static void run3(Rng& g, int n) {
 	for (int it = 0; it < n; ++it) { glm::vec<3, T> c0((T)g.real(-2, 2), (T)g.real(-2, 2), (T)g.real(-2, 2)), c1((T)g.real(-2, 2), (T)g.real(-2, 2), (T)g.real(-2, 2)), c2((T)g.real(-2, 2), (T)g.real(-2, 2), (T)g.real(-2, 2));
 		LD m[3][3] = {{c0.x, c0.y, c0.z}, {c1.x, c1.y, c1.z}, {c2.x, c2.y, c2.z}}, e[3][3]; bool good = true;
 		for (int k = 0; k < 3; ++k) { LD v[3] = {m[k][0], m[k][1], m[k][2]}; for (int j = 0; j < k; ++j) { LD d = e[j][0] * m[k][0] + e[j][1] * m[k][1] + e[j][2] * m[k][2]; for (int i = 0; i < 3; ++i) v[i] -= d * e[j][i]; } LD nv = sqrtl(v[0] * v[0] + v[1] * v[1] + v[2] * v[2]); if (nv < 0.2L) good = false; for (int i = 0; i < 3; ++i) e[k][i] = v[i] / nv; }
-		if (!good) continue; count("orthonormalize_mat3" + sfx); glm::mat<3, 3, T> r = glm::orthonormalize(glm::mat<3, 3, T>(c0, c1, c2)); LD dmax = 0; for (int k = 0; k < 3; ++k) for (int i = 0; i < 3; ++i) dmax = std::max(dmax, fabsl((LD)r[k][i] - e[k][i]));
+		if (!good) continue; count("orthonormalize_mat3" + sfx); glm::mat<3, 3, T> r = glm::orthonormalize(glm::mat<3, 3, T>(c0, c1, c2)); LD dmax = 0; for (int k = 0; k < 3; ++k) for (int i = 0; i < 3; ++i) dmax = nmax(dmax, fabsl((LD)r[k][i] - e[k][i]));
 		if (!(dmax <= 512 * eps)) fail("orthonormalize_mat3" + sfx, "Gram-Schmidt", "columns " + vs(c0) + vs(c1) + vs(c2), "orthonormal columns spanning the same flag", "max abs diff " + str((double)dmax));
 		count("orthonormalize_vec3" + sfx); glm::vec<3, T> yv = glm::normalize(c1); auto o = glm::orthonormalize(c0, yv); LD oy = ldot(o, yv), oo = ldot(o, o); LD dx = ldot(c0, yv), px[3]; LD pn = 0; for (int i = 0; i < 3; ++i) { px[i] = (LD)c0[i] - dx * yv[i]; pn += px[i] * px[i]; } pn = sqrtl(pn);
-		if (pn > 0.2L) { LD dd = 0; for (int i = 0; i < 3; ++i) dd = std::max(dd, fabsl((LD)o[i] - px[i] / pn)); if (!(dd <= 256 * eps && fabsl(oy) <= 256 * eps && fabsl(oo - 1) <= 64 * eps)) fail("orthonormalize_vec3" + sfx, "value", vs(c0) + " against " + vs(yv), "normalize(x - y dot(y, x))", vs(o)); } }
+		if (pn > 0.2L) { LD dd = 0; for (int i = 0; i < 3; ++i) dd = nmax(dd, fabsl((LD)o[i] - px[i] / pn)); if (!(dd <= 256 * eps && fabsl(oy) <= 256 * eps && fabsl(oo - 1) <= 64 * eps)) fail("orthonormalize_vec3" + sfx, "value", vs(c0) + " against " + vs(yv), "normalize(x - y dot(y, x))", vs(o)); } }
 }
 static void scalar_refract(Rng& g, int n) { for (int it = 0; it < n; ++it) { float I = g.range(0, 1) ? 1.f : -1.f, N = g.range(0, 1) ? 1.f : -1.f; float eta = (float)g.real(0.2, 3); (void)I;
 	float I2 = (float)g.real(-1, 1); float d = N * I2; float k = 1 - eta * eta * (1 - d * d); count("s_refract"); float r = glm::refract(I2, N, eta); if (k < -1e-3f && !(r == 0)) fail("s_refract", "total-internal-reflection", "I=" + str(I2) + " N=" + str(N) + " eta=" + str(eta), "0", str(r)); } }
